@@ -300,11 +300,16 @@ func checkPackage(u *gengotypes.Universe, P gengotypes.Package, r *proto.PkgRepo
 	// ---- U4: location ------------------------------------------------------
 	if P.Module() != nil {
 		for _, f := range P.Files() {
-			fname := fset.Position(f.FileStart).Filename
+			// where the file is, as positions report it (for a file that imports "C" the syntax comes from the
+			// copy cgo wrote into the build cache, whose //line directives name the source file)
+			fname := fset.Position(f.Package).Filename
 			if fname == "" {
-				fname = fset.Position(f.Package).Filename
+				fname = fset.Position(f.FileStart).Filename
 			}
 			dir := filepath.Dir(fname)
+			if outsideModule(P, dir) {
+				continue // synthesised by the toolchain (_cgo_gotypes.go): not a file of the package directory
+			}
 			if sd := P.SourceDir(); sd != dir {
 				bad("U4", "sourcedir-wrong", nil, "%s != %s", sd, dir)
 			}
@@ -408,6 +413,9 @@ func locateFirst(u *gengotypes.Universe) []proto.PkgReport {
 				if !obj.Pos().IsValid() {
 					continue
 				}
+				if ipk := u.Package(ip.Path()); ipk != nil && !isNilPkg(ipk) && outsideModule(ipk, filepath.Dir(ipk.FileSet().Position(obj.Pos()).Filename)) {
+					continue // declared in a file the toolchain synthesised (cgo)
+				}
 				r := proto.PkgReport{Path: ip.Path(), Module: true}
 				lp := u.LocateInPackage(obj.Pos())
 				switch {
@@ -424,6 +432,16 @@ func locateFirst(u *gengotypes.Universe) []proto.PkgReport {
 		}
 	}
 	return out
+}
+
+// outsideModule reports whether dir lies outside the module of P (or P has no module).
+func outsideModule(P gengotypes.Package, dir string) bool {
+	mod := P.Module()
+	if mod == nil || mod.Dir == "" {
+		return true
+	}
+	rel, err := filepath.Rel(mod.Dir, dir)
+	return err != nil || rel == ".." || strings.HasPrefix(rel, "../")
 }
 
 // inspectFromGenerator compares, through the public API a generator has, the name tables of the
@@ -456,6 +474,9 @@ func inspectFromGenerator(own gengotypes.Package, lookup func(string) gengotypes
 	check(own)
 	if own != nil && own.Pkg() != nil {
 		for _, ip := range own.Pkg().Imports() {
+			if ip.Path() == "unsafe" {
+				continue // (no source: its scope is built into the type checker)
+			}
 			check(lookup(ip.Path()))
 		}
 	}
